@@ -365,6 +365,45 @@ let op_walkgen (args : string list) (line : string) : string =
        String.concat " " (List.rev !out))
   | _ -> "BAD-ARGS"
 
+(* ---------- C15 classification ---------- *)
+let obs_classify (p : M.position) : string =
+  let one m = uci_of p m ^ ":" ^ b01 (M.quiet_spec p m) ^ b01 (M.captures_spec p m) ^ b01 (M.gives_check_spec p m) in
+  String.concat " " (List.sort compare (List.map one (M.legal_moves p)))
+
+(* the algorithmic model of the three predicates over the engine representation *)
+let obs_classify_alg (p : M.position) : string =
+  let s = M.rep_of_position zt p in
+  let one m =
+    let c = M.enc m in
+    uci_of p m ^ ":" ^ b01 (M.move_is_quiet_alg s c) ^ b01 (M.move_is_capture_alg s c) ^ b01 (M.move_gives_check_alg s c) in
+  String.concat " " (List.sort compare (List.map one (M.legal_moves p)))
+
+(* ---------- C17 SAN ---------- *)
+let obs_san (p : M.position) : string =
+  let one m =
+    let s = M.san_print p m in
+    uci_of p m ^ ":" ^ ostr s ^ ":" ^ (match M.san_parse p s with Some m2 when m2 = m -> "1" | _ -> "0") in
+  String.concat " " (List.sort compare (List.map one (M.legal_moves p)))
+
+let op_san_parse (rest : string) : string =
+  let (fen, strs) = split_game rest in
+  match parse_fen fen with
+  | None -> "BAD-FEN"
+  | Some p ->
+    String.concat " " (List.map (fun s -> match M.san_parse p (cstr s) with None -> "-" | Some m -> uci_of p m) strs)
+
+(* san_line s1 s2 ... : replay SAN tokens from the start position; prints the FEN before each token *)
+let op_san_line (toks : string list) : string =
+  let p = ref M.initial_position in
+  let out = ref [] in
+  (try List.iter (fun t ->
+       out := ostr (M.fen_print !p) :: !out;
+       match M.san_parse !p (cstr t) with
+       | None -> raise Exit
+       | Some m -> p := M.make_move !p m) toks
+   with Exit -> ());
+  String.concat " ; " (List.rev !out)
+
 (* ---------- model-driven random games ---------- *)
 
 (* playout <seed> <plies> <bias> <fen> : random legal game; bias (0..9) favours special moves *)
@@ -419,6 +458,11 @@ let dispatch (line : string) : string =
      | "g_rep" -> run_rep_game (rest_after line 1)
      | "walk" -> op_walk (rest_after line 1)
      | "g_key" -> run_key_game (rest_after line 1)
+     | "g_san" -> run_game (rest_after line 1) obs_san
+     | "san_parse" -> op_san_parse (rest_after line 1)
+     | "san_line" -> op_san_line args
+     | "g_classify" -> run_game (rest_after line 1) obs_classify
+     | "g_classify_alg" -> run_game (rest_after line 1) obs_classify_alg
      | "g_preds" -> run_preds_game (rest_after line 1)
      | "walkgen" -> op_walkgen args line
      | _ -> "UNKNOWN-OP " ^ op)
